@@ -38,6 +38,10 @@ pub struct Case {
 pub fn family(tier: Tier, seed: u64) -> Vec<SysSpec> {
     // hand-built dead-end systems first (the sweeps reach them only at deviation 3)
     let mut out = corner_extras();
+    // the 16-state lookup-table systems cost PDR hundreds of queries per session: thorough tier only
+    if !tier.is_thorough() {
+        out.retain(|s| !s.name.starts_with("X-table"));
+    }
     out.extend(dead_end_extras());
     let quick_sk = ["K1", "K2", "K3", "K5", "K7", "K4", "K6"];
     for name in quick_sk {
